@@ -19,6 +19,8 @@ EXPLANATION = (
 LEVEL_TEXT = ('static purity/effect and protocol rules over all pattern classes (about 80) and their ~90 embedding methods. '
               'The sequence each class denotes is not decided.')
 LEVEL_NOTE = 'denotations of individual pattern classes are program semantics and are not decided'
+LEVEL_TEXT_ADD = ' Also: operand provenance of the operator patterns (shared with C15.order), list-index discipline (C13.index), in-value handed to everything embedded.'
+LEVEL_TEXT = (globals().get('LEVEL_TEXT') or EXPLANATION) + LEVEL_TEXT_ADD
 TECHNIQUE = 'static analysis: effect (purity) analysis with alias tracking + generator-protocol path rules over the class hierarchy'
 
 MUTATORS = {'append', 'extend', 'pop', 'sort', 'insert', 'remove', 'clear', 'update', 'reverse', 'setdefault', 'popitem',
